@@ -66,7 +66,7 @@ inductive RtErr
   deriving DecidableEq, Repr, Inhabited
 
 def RtErr.name : RtErr → String
-  | .divzero => "divzero" | .negshift => "negshift" | .index => "index" | .slice => "slice"
+  | .divzero => "divzero" | .negshift => "negshift" | .index => "bounds" | .slice => "bounds"
   | .nilderef => "nilderef" | .nilmap => "nilmap" | .typeassert => "typeassert"
   | .makeslice => "makeslice" | .nilfunc => "nilderef" | .uncomparable => "uncomparable"
 
